@@ -1,6 +1,8 @@
 import SqlModel.Control
 import SqlModel.Generated.ControlRun
 import SqlProps.C20
+import SqlProps.C02
+import SqlProofs.GroupTotal
 /-!
 # C15 — pathological nesting is reported as SQLParseError, never a crash
 
@@ -39,5 +41,36 @@ uninitialised lexer (all thread counts, schedules and raising steps) -/
 theorem later_call_gets_initialised_lexer (n : Nat) (sched : Schedule) :
     AllResultsInitialised (runSchedule Gen.initLocked Gen.initProgram (initState n) sched) :=
   C20.init_safe n sched
+
+/-- **the only failure of the modelled `parse` is running out of recursion depth**: lexing and splitting always return (they are loops), and
+the 25 grouping passes can fail with nothing but `RecursionError` — which `recursion_error_never_escapes` turns into `SQLParseError`.  So for
+input nested to any depth `parse` either returns a tree (which then satisfies the text guarantee C02.parse_text) or raises SQLParseError. -/
+theorem parse_fails_only_by_depth (fuel : Nat) (s : Array Cp) (e : PyErr) (h : parseTrees fuel s = .error e) : e = .recursionError := by
+  rcases C02.parse_fails_only_where_split_fails_or_depth fuel s e h with h1 | ⟨sts, hls, h2⟩
+  · obtain ⟨ps, hps⟩ := lexSplit_ok s
+    simp [split, hps, Except.map] at h1
+  · clear h hls
+    induction sts generalizing e with
+    | nil => simp [groupStatements] at h2
+    | cons st rest ih =>
+      simp only [groupStatements] at h2
+      split at h2
+      · rename_i e2 he
+        injection h2 with h2; subst h2
+        exact groupStatement_total he
+      · split at h2
+        · rename_i e2 he
+          injection h2 with h2; subst h2
+          exact ih e2 he
+        · cases h2
+
+/-- … and what the caller of `FilterStack.run` then sees is `SQLParseError`, for every stage it could come from -/
+theorem parse_failure_is_sqlparse_error (fuel : Nat) (s : Array Cp) (e : PyErr) (h : parseTrees fuel s = .error e) (st : Stage) :
+    runMapError Gen.runTryStages st e = .sqlParseError := by
+  rw [parse_fails_only_by_depth fuel s e h]; exact recursion_error_never_escapes st
+
+/-- depth is the only obstacle: every flat statement is grouped successfully from some recursion budget on, and a larger budget never
+changes the result -/
+theorem enough_depth_always_succeeds : type_of% @group_fuel_enough := @group_fuel_enough
 
 end Sql.C15
